@@ -348,6 +348,13 @@ Proof.
   unfold trans_chr. destruct H as [H _]. destruct (fst ch <? 32) eqn:E; [lia|reflexivity].
 Qed.
 
+Lemma trans_text_id u text : Forall (chr_ok u) text -> trans_text u text = text.
+Proof.
+  intros H. unfold trans_text. destruct u; [|apply (trans_id _ _ H)].
+  induction H as [|ch l Hc _ IH]; [reflexivity|]. cbn [filter]. destruct Hc as [Hc _].
+  destruct (fst ch <? 32) eqn:E; [lia|]. cbn [negb]. now rewrite IH.
+Qed.
+
 Lemma RowSt_set_attr t y P R v : RowSt t y P R -> RowSt (set_attr t v) y P R.
 Proof. unfold RowSt. cbn. auto. Qed.
 Lemma RowSt_set_so t y P R v : RowSt t y P R -> RowSt (set_so t v) y P R.
@@ -432,8 +439,8 @@ Proof.
   intros Hc Hok HI HR HF Hy Hfit. destruct r as [[a cs] text]. cbn [snd] in Hfit.
   destruct Hok as (Htext & Hbase & Hcs). destruct HI as (Iattr & Iirm & Ics).
   unfold emit_run.
-  assert (Etext : (if cs =? 2 then text else map trans_chr text) = text).
-  { destruct (cs =? 2); [reflexivity|]. apply (trans_id _ _ Htext). }
+  assert (Etext : (if cs =? 2 then text else trans_text (g_utf8 c) text) = text).
+  { destruct (cs =? 2); [reflexivity|]. apply (trans_text_id _ _ Htext). }
   rewrite Etext. cbn [fst snd].
   rewrite !run_app.
   (* attribute *)
@@ -616,6 +623,16 @@ Proof. rewrite row_width_cons. change (row_width []) with 0. lia. Qed.
 Lemma run_cells_nil c a cs : run_cells c (a, cs, []) = [].
 Proof. reflexivity. Qed.
 
+Lemma text_width_pos u t0 c zs : Forall (chr_ok u) (t0 ++ c :: zs) -> snd c <> 0 ->
+  text_width u (t0 ++ c :: zs) =? 0 = false.
+Proof.
+  intros H Hc. rewrite text_width_calc by exact H. rewrite calc_width_app. cbn [calc_width].
+  apply Forall_app in H as [H0 H1]. pose proof (Forall_inv H1) as Hcc. apply Forall_inv_tail in H1.
+  pose proof (calc_width_nonneg t0 (Forall_chr_ok_w12 _ _ H0)).
+  pose proof (calc_width_nonneg zs (Forall_chr_ok_w12 _ _ H1)).
+  destruct (chr_ok_w12 _ _ Hcc) as [Hh|[Hh|Hh]]; lia.
+Qed.
+
 (* Y and Z: each a column-taking character with the combining characters that follow it *)
 Definition base_text (t : list chr) : Prop := exists ch zs, t = ch :: zs /\ snd ch <> 0 /\ Forall zw zs.
 
@@ -655,6 +672,7 @@ Proof.
       apply Forall_app in Hfront as [Hfront0 Hy]. apply Forall_inv in Hy as Hyr.
       destruct Hyr as (Hntne & Hntb & Hnt & Hycs).
       destruct (split_last_base nt Hntne Hntb) as (nt0 & yc & ys & -> & Hyc0 & Hys & Hnt0b).
+      rewrite (text_width_pos _ nt0 yc ys Hnt Hyc0).
       rewrite (calc_text_pos_last _ nt0 yc ys Hnt Hyc0 Hys).
       assert (Hnt0 : Forall (chr_ok (g_utf8 c)) nt0) by (apply Forall_app in Hnt as [H _]; exact H).
       assert (Hyt : Forall (chr_ok (g_utf8 c)) (yc :: ys)) by (apply Forall_app in Hnt as [_ H]; exact H).
@@ -685,6 +703,7 @@ Proof.
     assert (Hlt0ne : lt0 <> []) by (intros ->; rewrite zlen_nil in E0; lia).
     destruct (split_last_base lt0 Hlt0ne Hlt0b) as (lt1 & yc & ys & -> & Hyc0 & Hys & Hlt1b).
     rewrite dropz_app_exact by reflexivity. rewrite takez_app_exact by reflexivity.
+    rewrite (text_width_pos _ lt1 yc ys Hlt0 Hyc0).
     rewrite (calc_text_pos_last _ lt1 yc ys Hlt0 Hyc0 Hys).
     assert (Hlt1 : Forall (chr_ok (g_utf8 c)) lt1) by (apply Forall_app in Hlt0 as [H _]; exact H).
     assert (Hyt : Forall (chr_ok (g_utf8 c)) (yc :: ys)) by (apply Forall_app in Hlt0 as [_ H]; exact H).
@@ -976,7 +995,9 @@ Proof.
   assert (HzR' : zlen R' = snd yc) by lia.
   destruct HI2 as (_ & Hirm2 & Hcs2).
   (* backspaces *)
-  unfold emit_ins. rewrite !run_app. fold t2. rewrite Hwzt.
+  assert (Eit : (if ycs =? 2 then yt else trans_text (g_utf8 c) yt) = yt).
+  { destruct (ycs =? 2); [reflexivity|]. apply (trans_text_id _ _ Hyt). }
+  unfold emit_ins. cbv beta iota zeta. rewrite Eit. rewrite !run_app. fold t2. rewrite Hwzt.
   assert (Hbs : run t2 (repeat TBs (Z.to_nat (snd zc))) = set_pos t2 (zlen (row_cells c nr0)) y false).
   { rewrite bs_run by (rewrite Hx2, Hsplit, zlen_app, HzZ; pose proof (zlen_nonneg (row_cells c nr0)); lia).
     destruct (Z.to_nat (snd zc)) eqn:En; [lia|]. f_equal; [|exact Hy2].
